@@ -57,7 +57,9 @@ impl<S: ParamsSpec> Params<S> {
     where
         N: AsRef<str>,
     {
-        self.params.iter().find(|p| p.name == name.as_ref())
+        self.params
+            .iter()
+            .find(|p| p.name.eq_ignore_ascii_case(name.as_ref()))
     }
 
     #[inline]
@@ -65,7 +67,9 @@ impl<S: ParamsSpec> Params<S> {
     where
         N: AsRef<str>,
     {
-        self.params.iter_mut().find(|p| p.name == name.as_ref())
+        self.params
+            .iter_mut()
+            .find(|p| p.name.eq_ignore_ascii_case(name.as_ref()))
     }
 
     #[inline]
@@ -81,7 +85,10 @@ impl<S: ParamsSpec> Params<S> {
     where
         N: AsRef<str>,
     {
-        let pos = self.params.iter().position(|p| p.name == name.as_ref())?;
+        let pos = self
+            .params
+            .iter()
+            .position(|p| p.name.eq_ignore_ascii_case(name.as_ref()))?;
 
         self.params.remove(pos).value
     }
